@@ -1012,7 +1012,50 @@ def dynamics_rule(ctx, rid="R5.E1"):
 
         return (f"dynamics {algo}{' damped' if damped else ''}{' loaded' if loaded else ''}{'' if scale == 1 else ' tiny'}{'' if (beta, gamma) == (Q(1, 4), Q(1, 2)) else ' beta=3/10'}{'' if alpha is None else ' alpha=3/10 given'}", solve, thunk)
 
-    scen = [scenario("newmark", False, False), scenario("midpoint", False, False), scenario("euler_implicit", False, False),
+    def parabolic(alpha, loaded):
+        def thunk():
+            W = World(repo, lib=W0.lib)
+            md, mesh = domain_mesh(W, "TRI3")
+            mat = W.new(THERMAL_M, k=Q(5, 2), c=Q(3), thickness=Q(3, 4))
+            simu = W.new(THERMAL, mesh, mat)
+            W.set(simu, "rho", Q(2))
+            left = boundary_nodes(W, md, lambda c: c[0] == 0)
+            right = boundary_nodes(W, md, lambda c: c[0] == 2)
+            W.call(simu, "add_dirichlet", iarr(left), [Q(0)], ["t"])
+            if loaded:
+                W.call(simu, "add_surfLoad", iarr(right), [Q(7, 3)], ["t"])
+            n = md.Nn
+            fixed = set(left)
+            u0, v0 = vec(n, 5, fixed), vec(n, 17, fixed)
+            W.call(simu, "_Set_solutions", "thermal", XArray((n,), u0), XArray((n,), v0))
+            K, C, M, F = W.call(simu, "Get_K_C_M_F")
+            Kd, Cd = [[_qq(v) for v in row] for row in dense(K)], [[_qq(v) for v in row] for row in dense(C)]
+            Fv = [_qq(a) + _qq(b) for a, b in zip(polys(F.toarray() if hasattr(F, "toarray") else F), polys((lambda v: v.toarray() if hasattr(v, "toarray") else v)(W.call(simu, "Bc_vector_Neumann", "thermal"))))]
+            un, vn = u0, v0
+            for step, dt in enumerate((Q(1, 3), Q(1, 7), Q(1, 5))):
+                W.call(simu, "Solver_Set_Parabolic_Algorithm", dt, alpha)
+                W.call(simu, "Solve")
+                u1 = [_qq(x) for x in polys(W.call(simu, "_Get_u_n", "thermal"))]
+                v1 = [_qq(x) for x in polys(W.call(simu, "_Get_v_n", "thermal"))]
+                tag = f"parabolic alpha = {alpha}{' loaded' if loaded else ''}, step {step + 1} (dt = {dt})"
+                for k in range(n):
+                    if k in fixed:
+                        if u1[k] != 0:
+                            return f"{tag}: prescribed dof {k} moved to {u1[k]}"
+                        continue
+                    if u1[k] != un[k] + dt * ((1 - alpha) * vn[k] + alpha * v1[k]):
+                        return f"{tag}: u_(n+1) != u_n + dt ((1 - alpha) v_n + alpha v_(n+1)) at dof {k}"
+                res = [x + y - f for x, y, f in zip(mv(Kd, u1), mv(Cd, v1), Fv)]
+                for k in range(n):
+                    if k not in fixed and res[k] != 0:
+                        return f"{tag}: K u_(n+1) + C v_(n+1) - F is about {float(res[k]):.3g} (exact arithmetic) on the free dof {k}"
+                un, vn = u1, v1
+            return None
+
+        return (f"parabolic alpha={alpha}{' loaded' if loaded else ''}", solve, thunk)
+
+    scen = [parabolic(Q(1, 2), True), parabolic(Q(1), False), parabolic(Q(2, 3), True)]
+    scen += [scenario("newmark", False, False), scenario("midpoint", False, False), scenario("euler_implicit", False, False),
             scenario("newmark", True, True), scenario("midpoint", True, True), scenario("euler_implicit", True, True),
             scenario("newmark", False, False, scale=Q(1, 10**12)), scenario("midpoint", False, True, scale=Q(1, 10**12)),
             scenario("newmark", True, True, beta=Q(3, 10), gamma=Q(3, 5)), scenario("midpoint", True, True, alpha=Q(3, 10)), scenario("euler_implicit", False, True, alpha=Q(3, 10))]
